@@ -218,6 +218,17 @@ def obs_impl(sc):
     for n in names:
         if sorted(map(id, sc.transitions_from(n))) != sorted(id(t) for t in sc.transitions if t.source == n):
             problems.append('transitions_from(%s) disagrees with the transition list' % n)
+        if sorted(map(id, sc.transitions_to(n))) != sorted(
+                id(t) for t in sc.transitions if t.target == n or (t.target is None and t.source == n)):
+            problems.append('transitions_to(%s) disagrees with the transition list' % n)
+        if sorted(sc.events_for(n)) != sorted({t.event for t in sc.transitions if t.source == n and t.event}):
+            problems.append('events_for(%s) = %s disagrees with the transition list' % (n, sc.events_for(n)))
+    evs = sorted({t.event for t in sc.transitions if t.event})
+    if sorted(sc.events_for()) != evs or sorted(sc.events_for(list(names))) != evs:
+        problems.append('events_for() = %s, events on transitions: %s' % (sc.events_for(), evs))
+    for e in sorted(set(evs + [x[:-1] for x in evs if len(x) > 1] + [x + 'y' for x in evs] + ['no-such-event'])):
+        if sorted(map(id, sc.transitions_with(e))) != sorted(id(t) for t in sc.transitions if t.event == e):
+            problems.append('transitions_with(%s) disagrees with the transition list' % e)
     if names:
         want = sorted(l for l in names if not any(d in names for d in sc.descendants_for(l)))
         if sorted(sc.leaf_for(names)) != want:
@@ -229,7 +240,7 @@ INITIALS = {
     'mixed': ([('add_state', 'C', 'r', None), ('add_state', 'C', 'c', 'r'), ('add_state', 'B', 'a', 'c'),
                ('add_state', 'B', 'b', 'c'), ('add_state', 'HS', 'h', 'c'), ('add_state', 'O', 'o', 'r'),
                ('add_state', 'B', 'p', 'o'), ('add_state', 'F', 'f', 'r'),
-               ('add_transition', 'a', 'b', 'x'), ('add_transition', 'a', None, 'y'),
+               ('add_transition', 'a', 'b', 'x'), ('add_transition', 'a', None, 'xy'),
                ('add_transition', 'c', 'f', 'z'), ('add_transition', 'p', 'h', 'w')],
               {'r': ('initial', 'c'), 'c': ('initial', 'a'), 'h': ('memory', 'b')}),
     'deep': ([('add_state', 'C', 'r', None), ('add_state', 'C', 'c', 'r'), ('add_state', 'HD', 'h', 'r'),
